@@ -1,0 +1,21 @@
+//go:build verif
+
+package lifecycle
+
+// VerifYield, when set (only by the verification harness, built with
+// -tags verif), is called at the boundaries of StartStop's atomic sections:
+//
+//	"stop:sec1"     after Stop's first critical section, before the wait on startedCh
+//	"stop:started"  after the wait on startedCh, before Stop's second critical section
+//	"stop:sec2"     after Stop's second critical section, before the wait on doneCh
+//	"started:sec"   after Started's critical section
+//
+// It lets a test director park the calling goroutine at that point. It must be
+// set before any StartStop is used and not changed while goroutines are running.
+var VerifYield func(point string)
+
+func verifYield(point string) {
+	if f := VerifYield; f != nil {
+		f(point)
+	}
+}
